@@ -672,6 +672,42 @@ Proof.
   inversion Fx; subst. apply andb_true_iff. split; [apply Nat.ltb_lt; assumption|apply IH; exact St].
 Qed.
 
+Lemma copy_rows_concat rows : forall acc pre,
+  length pre = acc ->
+  copy_rows (pre ++ repeat 0 (length (concat rows))) acc (prefix_sums acc (map (@length nat) rows)) rows
+  = Ok (pre ++ concat rows).
+Proof.
+  induction rows as [|r t IH]; intros acc pre Hp.
+  - cbn. reflexivity.
+  - cbn [map prefix_sums concat copy_rows]. unfold copy_row.
+    rewrite !app_length, repeat_length.
+    destruct (Nat.ltb_spec (acc + length r) acc) as [H|_]; [lia|].
+    destruct (Nat.ltb_spec (length pre + (length r + length (concat t))) (acc + length r)) as [H|_]; [lia|].
+    cbn [orb bind].
+    replace (acc + length r - acc) with (length r) by lia.
+    rewrite firstn_all.
+    rewrite firstn_app, <- Hp, Nat.sub_diag, firstn_all. cbn [firstn]. rewrite app_nil_r.
+    rewrite skipn_app. rewrite skipn_all2 by lia. cbn [app].
+    replace (length pre + length r - length pre) with (length r) by lia.
+    rewrite (repeat_app 0 (length r) (length (concat t))).
+    rewrite skipn_app, repeat_length, Nat.sub_diag. rewrite skipn_all2 by (rewrite repeat_length; lia).
+    cbn [skipn app].
+    specialize (IH (length pre + length r) (pre ++ r)).
+    rewrite app_length in IH. specialize (IH eq_refl).
+    rewrite <- !app_assoc in IH. subst acc. exact IH.
+Qed.
+
+Lemma last_prefix_sums l : forall acc, last (acc :: prefix_sums acc l) 0 = acc + fold_right Nat.add 0 l.
+Proof.
+  induction l as [|x t IH]; intros acc; [cbn; lia|].
+  cbn [prefix_sums fold_right]. change (last (acc :: ?a :: ?r) 0) with (last (a :: r) 0).
+  rewrite IH. lia.
+Qed.
+
+Lemma length_concat (rows : list (list nat)) :
+  length (concat rows) = fold_right Nat.add 0 (map (@length nat) rows).
+Proof. induction rows as [|r t IH]; [reflexivity|]. cbn [concat map fold_right]. rewrite app_length, IH. reflexivity. Qed.
+
 Lemma assemble_spec rows :
   (forall r, In r rows -> StronglySorted lt r /\ forall x, In x r -> x < length rows) ->
   assemble rows = Ok (mkCsr (length rows) (length rows) (0 :: prefix_sums 0 (map (@length nat) rows))
@@ -681,6 +717,8 @@ Proof.
   assert (Hsz : length (0 :: prefix_sums 0 (map (@length nat) rows)) - 1 = length rows)
     by (cbn [length]; rewrite prefix_sums_length, map_length; lia).
   unfold assemble. rewrite Hsz.
+  rewrite last_prefix_sums, Nat.add_0_l, <- length_concat.
+  pose proof (copy_rows_concat rows 0 [] eq_refl) as Hcp. cbn [app] in Hcp. rewrite Hcp. cbn [bind].
   assert (V : csmat_valid (length rows) (0 :: prefix_sums 0 (map (@length nat) rows)) (concat rows)
                           (repeat ONE_BITS (length (concat rows))) = true).
   { unfold csmat_valid. rewrite repeat_length, Nat.eqb_refl. cbn [length].
